@@ -176,6 +176,20 @@ def check(res):
         if mo.strip() != mwant and "model-growth" not in keys:
             keys.add("model-growth")
             res.violation("model-growth", "the extracted model (Typing.type_of over add_member) does not list the members' types", {"script": gl, "model": mo[:500]}, no_input=True)
+    # symbols and id-expressions named by a reserved word: the type is still the one requested
+    nres, rbad = fsweep.reserved_names(60)
+    for l, word, t, d in rbad[:1]:
+        if "constructed:reserved-name" not in keys and (d.get("symbol.type") != t or d.get("id_expr.type") != t):
+            keys.add("constructed:reserved-name")
+            res.violation("constructed:reserved-name", "get_symbol / make_id_expr requested with the reserved word `%s` as name and type %s: the symbol has type %s, the id-expression %s" %
+                          (word, t, d.get("symbol.type"), d.get("id_expr.type")), {"observed": l, "rerun": "echo 'N:reserved <index of the word> <type index>' | build/<hash>/asan/fsweep_driver"})
+    ll_lines, ll_bad = fsweep.long_lists(res, "", res.tier)
+    for l, o, d in ll_bad[:2]:
+        k = "growth:long-list:" + l.split()[1]
+        if k not in keys and (d.get("bad_product") != "0" or d.get("bad_type") != "0" or d.get("bad_member") != "0" or d.get("error") != "-"):
+            keys.add(k)
+            res.violation(k, "the type of a %s list of %s members is not the product of its members' types in order: first difference at position %s" %
+                          (l.split()[1], d.get("n"), d.get("first")), {"case": l, "observed": o, "rerun": "echo '%s' | build/<hash>/asan/c09_driver" % l})
     if not all(status.values()) and not any(k.startswith(("rule:", "constructed:", "growth:")) for k in keys):
         res.violation("coq:Properties_C09.v", "proof obligation no longer checks", {"theorem_file": "Properties_C09.v", "error": coq_error_excerpt(out, "Properties_C09.v")}, no_input=True)
     unseen = sorted(c for c in rules if c not in seen_cats)
